@@ -273,9 +273,23 @@ func sentinel(i int) service {
 }
 
 // pick names a variant: "lib0", "shop1", …
+// Contracts that give the PatternRouter NOTHING to route (their sentinel is bare, too): no services at all, services
+// without methods, methods whose every binding is unparseable (no default binding is made for a method that has bindings).
+var unroutable = map[string]contract{
+	"empty":     {},
+	"nomethods": {svc("stk.a.Lib"), svc("stk.b.Shop")},
+	"badtemplates": {svc("stk.a.Lib",
+		mth("Get", "u", bnd("GET", "/v1/lib/{id", "-")),
+		mth("Put", "u", bnd("POST", "v1/lib", "*"), bnd("PUT", "/v1/lib/{id", "sub")))},
+}
+
 func pick(names ...string) contract {
 	var c contract
 	for _, n := range names {
+		if u, ok := unroutable[n]; ok {
+			c = append(c, u...)
+			continue
+		}
 		c = append(c, catalogue[n[:len(n)-1]][int(n[len(n)-1]-'0')])
 	}
 	return c
@@ -297,7 +311,12 @@ func withSentinels(ops []histOp) []contract {
 	}
 	present := map[string]inst{}
 	for i, o := range ops {
-		plus := func(k int) contract { return append(append(contract{}, o.c...), sentinel(k)) }
+		plus := func(k int) contract {
+			if !o.c.routable() {
+				return append(append(contract{}, o.c...), svc(fmt.Sprintf("stk.z.S%d", k))) // bare: nothing routable at all
+			}
+			return append(append(contract{}, o.c...), sentinel(k))
+		}
 		switch o.kind {
 		case "A":
 			out[i] = o.c
@@ -380,6 +399,9 @@ func render(poll, opt bool, ops []histOp) string {
 					continue
 				}
 				for bi, b := range m.bindings {
+					if !validTmpl(b.pattern) {
+						continue // never becomes a route; the paths of the sound templates around it are probed anyway
+					}
 					path := instantiate(b.pattern, fmt.Sprintf("%c%d", m.name[0], bi))
 					addH(b.hm, path, b.body)
 					if b.hm == "GET" && m.kind != "u" {
@@ -449,6 +471,10 @@ func fixed() []string {
 		render(true, true, []histOp{A("a", "v1", "lib0", "shop0"), U("a", "lib2", "shop0"), U("a", "lib2", "shop2"), U("a", "lib0", "shop2"), R("a")}),
 		// the same next to a second target that claims one of the services; then a method added inside a kept service set
 		render(true, false, []histOp{A("a", "both", "misc0", "lib1"), A("b", "v1", "misc2"), U("a", "misc2", "lib1"), U("b", "misc0"), U("a", "misc2", "lib0"), R("a"), R("b")}),
+		// polling on: from a routable contract to one with NOTHING routable for the PatternRouter (no services / services without
+		// methods / only unparseable templates) and back: every old binding and default POST path must be gone in between
+		render(true, true, []histOp{A("a", "v1", "lib0", "shop0"), U("a", "empty"), U("a", "lib2"), U("a", "nomethods"), R("a")}),
+		render(true, false, []histOp{A("a", "both", "misc0", "shop1"), A("b", "v1", "lib1"), U("a", "badtemplates"), U("a", "misc2"), U("b", "empty"), R("b"), R("a")}),
 		// polling on, contested service: the owner's changed contract releases it, the waiting claimant takes over
 		render(true, false, []histOp{A("a", "v1", "lib0"), A("b", "both", "lib1", "shop0"), U("a", "misc0"), U("b", "lib0"), R("a"), R("b")}),
 		// Remove and Add of the SAME name started concurrently while its poller is in the middle of a resolution;
@@ -463,6 +489,9 @@ var names = []string{"a", "b", "c"}
 var families = []string{"lib", "shop", "misc"}
 
 func randomContract(r *rand.Rand) []string {
+	if r.Intn(8) == 0 {
+		return []string{[]string{"empty", "nomethods", "badtemplates"}[r.Intn(3)]}
+	}
 	var out []string
 	for _, s := range families {
 		if r.Intn(2) == 0 {
@@ -481,6 +510,9 @@ func sameRoutes(r *rand.Rand, vs []string) ([]string, bool) {
 	out := append([]string{}, vs...)
 	changed := false
 	for i, v := range out {
+		if _, ok := unroutable[v]; ok {
+			continue
+		}
 		fam, k := v[:len(v)-1], v[len(v)-1]
 		if k == '1' || (changed && r.Intn(2) == 0) {
 			continue
@@ -541,6 +573,8 @@ func randomHistory(r *rand.Rand, maxOps int, allowPoll bool) string {
 			vs := randomContract(r)
 			if same, ok := sameRoutes(r, in.vs); ok && r.Intn(2) == 0 {
 				vs = same
+			} else if r.Intn(4) == 0 {
+				vs = []string{[]string{"empty", "nomethods", "badtemplates"}[r.Intn(3)]} // nothing routable for the PatternRouter
 			}
 			ops = append(ops, U(name, vs...))
 			present[name] = liveInst{in.refl, vs}
